@@ -138,6 +138,12 @@ func ite(c, a, b Term) Term {
 }
 
 func sel(arr, idx Term) Term {
+	// fold select-of-store on the syntactically same index
+	if strings.HasPrefix(arr.S, "(store ") {
+		if args := sexprArgs(arr.S); len(args) == 4 && args[2] == idx.S {
+			return Term{args[3], arrayElemSort(arr.Sort)}
+		}
+	}
 	s := string(arr.Sort)
 	// (Array K V) -> V
 	return mk(arrayElemSort(Sort(s)), "select", arr, idx)
@@ -210,10 +216,56 @@ func gt(a, b Term) Term  { return mk(SBool, ">", a, b) }
 func eidx(off, i Term) Term { return mk(SInt, "idx", off, i) }
 
 // slice accessors
-func sBase(s Term) Term { return mk(SInt, "s_base", s) }
-func sOff(s Term) Term  { return mk(SInt, "s_off", s) }
-func sLen(s Term) Term  { return mk(SInt, "s_len", s) }
-func sCap(s Term) Term  { return mk(SInt, "s_cap", s) }
+func sBase(s Term) Term { return sliceAcc(s, "s_base", 0) }
+func sOff(s Term) Term  { return sliceAcc(s, "s_off", 1) }
+func sLen(s Term) Term  { return sliceAcc(s, "s_len", 2) }
+func sCap(s Term) Term  { return sliceAcc(s, "s_cap", 3) }
+
+// sliceAcc applies a slice accessor, folding accessor-of-constructor.
+func sliceAcc(s Term, acc string, i int) Term {
+	if strings.HasPrefix(s.S, "(mk_slice ") {
+		if args := sexprArgs(s.S); len(args) == 5 {
+			return Term{args[i+1], SInt}
+		}
+	}
+	return mk(SInt, acc, s)
+}
+
+// sexprArgs splits "(f a b c)" into [f a b c] at the top level.
+func sexprArgs(s string) []string {
+	if len(s) < 2 || s[0] != '(' || s[len(s)-1] != ')' {
+		return nil
+	}
+	body := s[1 : len(s)-1]
+	var out []string
+	depth := 0
+	start := -1
+	for i := 0; i <= len(body); i++ {
+		var c byte = ' '
+		if i < len(body) {
+			c = body[i]
+		}
+		switch {
+		case c == '(':
+			if depth == 0 && start < 0 {
+				start = i
+			}
+			depth++
+		case c == ')':
+			depth--
+		case c == ' ' || c == '\n':
+			if depth == 0 && start >= 0 {
+				out = append(out, body[start:i])
+				start = -1
+			}
+		default:
+			if start < 0 {
+				start = i
+			}
+		}
+	}
+	return out
+}
 func mkSlice(base, off, ln, cp Term) Term {
 	return mk(SSlice, "mk_slice", base, off, ln, cp)
 }
@@ -392,7 +444,12 @@ func (u *Universe) field(v Term, i int) Term {
 		panic("field of non-struct sort " + string(v.Sort) + " term " + v.S)
 	}
 	f := info.fields[i]
-	// simplify (acc (mk ...)) is left to the solver
+	// fold accessor-of-constructor
+	if strings.HasPrefix(v.S, "(mk_"+string(v.Sort)+" ") {
+		if args := sexprArgs(v.S); len(args) == len(info.fields)+1 {
+			return Term{args[i+1], f.sort}
+		}
+	}
 	return mk(f.sort, f.acc, v)
 }
 
